@@ -1,5 +1,5 @@
 (* C10 — ellipsis expansion repeats, renames and renumbers as documented. *)
-From Secs Require Import Ast FloatProofs Fill Msg Api WireSpec WireLemmas WireValues WireEnc WireDec MsgProofs AstProofs.
+From Secs Require Import Ast FloatProofs Fill Msg Api WireSpec WireLemmas WireValues WireEnc WireDec MsgProofs AstProofs EllipsisProofs.
 Open Scope Z_scope.
 
 (* all resulting variable names stay unique, for every template and assignment *)
@@ -7,9 +7,55 @@ Theorem C10_unique : forall s t t', NoDup (vars t) -> fill s t = Some t' -> NoDu
 Proof. exact fill_nodup. Qed.
 Print Assumptions C10_unique.
 
-(* filling an ellipsis with 0 just removes it; with n > 0 the items before it
-   appear n+1 times with suffixes [0]..[n]: two closed instances of the model,
-   the general statement (C10_refines) is work in progress *)
+(* the expander of list.go — dimension stack, index vector, restart of the
+   loop index, counter of remaining ellipses — computes the declarative
+   expansion [expand_d]: the group before a filled ellipsis is copied n + 1
+   times, copy j under the index path extended by j, the rest once under the
+   enclosing path; nested groups are expanded in every copy; for every template,
+   every nesting and all non-negative counts *)
+Theorem C10_refines : forall s multi, counts_ok s -> forall fuel st path cnt t,
+  rel multi st path cnt -> agree multi path (fill_ell s fuel st t) (expand_d s multi fuel path cnt t).
+Proof. intros s multi H fuel. exact (fill_ell_refines s multi H fuel). Qed.
+Print Assumptions C10_refines.
+
+(* ItemNode.FillVariables = the declarative expansion under the empty path, then plain substitution *)
+Theorem C10_fill : forall s xs tf rem,
+  counts_ok (fst (split_values s)) ->
+  ellipsis_analysis (fst (split_values s)) (IList xs) = Ok (tf, rem) -> 0 < tf ->
+  fill s (IList xs) =
+  match expand_d (fst (split_values s)) (1 <? rem) (S (depth (IList xs))) [] 0 (IList xs) with
+  | Some (t', _) => fill_plain (snd (split_values s)) t'
+  | None => None
+  end.
+Proof. exact fill_expands. Qed.
+Print Assumptions C10_fill.
+
+(* n + 1 copies of the p items before the ellipsis, the others once (n = 0: the ellipsis just disappears) *)
+Theorem C10_count : forall s multi f path cnt xs p n t' c,
+  find_ellipsis s xs 0 = Some (p, GInt Kint n) -> 0 <= n ->
+  expand_d s multi (S f) path cnt (IList xs) = Some (t', c) ->
+  exists ys, t' = IList ys /\ length ys = ((Z.to_nat n + 1) * p + (length xs - S p))%nat.
+Proof. exact expansion_count. Qed.
+Print Assumptions C10_count.
+
+(* a variable in copy j gets the suffix [j] after the suffixes of the enclosing expansions, outermost first *)
+Theorem C10_rename : forall multi rec path j cnt n, is_ellipsis n = false ->
+  one_d multi rec (path ++ [j]) cnt (IVar n) = Some (GStr (n ++ sfx path ++ index_suffix j), cnt).
+Proof. exact renamed_variable. Qed.
+Print Assumptions C10_rename.
+
+(* remaining ellipses are renumbered in order of appearance when more than one remains, and left as "..." when one remains *)
+Theorem C10_renumber : forall rec path cnt n, is_ellipsis n = true ->
+  one_d true rec path cnt (IVar n) = Some (GStr ([x2e; x2e; x2e] ++ index_suffix cnt), cnt + 1) /\
+  one_d false rec path cnt (IVar n) = Some (GStr [x2e; x2e; x2e], cnt).
+Proof. intros. split; [apply renumbered_ellipsis|apply single_ellipsis_unnumbered]; assumption. Qed.
+Print Assumptions C10_renumber.
+
+(* the initial state of an expansion represents the empty path and counter 0 *)
+Example C10_initial : forall rem, rel (1 <? rem) (new_fill_state rem) [] 0.
+Proof. intro rem. repeat split. Qed.
+
+(* closed instances *)
 Example C10_zero :
   fill [(B"..."%string, GInt Kint 0)] (IList [IVar (B"a"%string); IVar (B"..."%string); IVar (B"b"%string)])
   = Some (IList [IVar (B"a"%string); IVar (B"b"%string)]).
